@@ -49,6 +49,9 @@ def observe(cx, impl=None):
             rel = ctx.relations(include_unary=unary)
             ent = entries(cx, rel)
             tag = 0 if layout_ok(rel) else 8
+            repr(rel), str(rel), rel.tostring(), rel.tostring(exclude_orthogonal=True), len(rel), list(reversed(rel))
+            if coq(entries(cx, rel)) != coq(ent) or coq(entries(cx, ctx.relations(include_unary=unary))) != coq(ent):
+                tag = 8               # printing / re-asking must not change the result
             kinds |= {r.kind for r in rel}
             subs.append({'include_unary': unary, 'entries': [(r.kind, str(r.left), str(r.right), r.order) for r in rel], 'tag': tag})
         except Exception as e:  # noqa: BLE001
